@@ -155,6 +155,23 @@ theorem unit_independence (it1 : Item Rat) (wf : it1.WF) (h0 : it1.rawData = tru
       (it1.runCode (cs1 ++ [.getSIData])).2[cs1.length]? :=
   unit_independence_obs _ it1 wf h0 act2 hl ha2 cs1 cs2
 
+/-- UDA items (rates and pressure limits of wells and groups): a value given in the deck converts
+with the same active dimension, element by element, as a double item — `get<UDAValue>(i).getSI()`
+is element `i` of the SI image … -/
+theorem uda_deck_value_is_si_image (it : Item Rat) (wf : it.WF) (i : Nat) (x : Rat) (hx : it.dval[i]? = some x)
+    (hst : (it.status.getD i .uninitialized).defaulted = false) :
+    ∃ y, (siOf it.active it.dflt 0 it.dval it.status)[i]? = some y ∧
+      (match it.uda i with | .si z => z = y | _ => False) :=
+  uda_deck_value it wf i x hx hst
+
+/-- … and a defaulted UDA value is handed out without a number, carrying the DEFAULT dimension
+(the consumer supplies its own default in SI through `SI_value_or`) -/
+theorem uda_defaulted_carries_default_dimension (it : Item Rat) (wf : it.WF) (i : Nat) (x : Rat)
+    (hx : it.dval[i]? = some x) (hst : (it.status.getD i .uninitialized).defaulted = true) :
+    ∃ d, it.dflt[i % it.active.length]? = some d ∧
+      (match it.uda i with | .undefined d' => d' = d | _ => False) :=
+  uda_defaulted it wf i x hx hst
+
 /-! ## output side: `data::Solution::convertFromSI / convertToSI` -/
 
 /-- values converted to output units and back with the same tables are the SI values again, for
